@@ -58,6 +58,13 @@ pub open spec fn cval(p: Polynomial, x: (real, real)) -> (real, real) { chs(cs(p
 // r is an Ok result of newton_polynomial(_, p, tol, _): a Newton update whose size is within tol (contract proved at N = real in C08)
 pub uninterp spec fn newton_result(p: Seq<(real, real)>, r: (real, real), tol: real) -> bool;
 
+pub proof fn lemma_cmul_neg(r: (real, real), c: (real, real)) ensures cmul(r, cneg(c)) == cneg(cmul(r, c))
+{
+    assert(r.0 * (-c.0) == -(r.0 * c.0)) by(nonlinear_arith);
+    assert(r.1 * (-c.1) == -(r.1 * c.1)) by(nonlinear_arith);
+    assert(r.0 * (-c.1) == -(r.0 * c.1)) by(nonlinear_arith);
+    assert(r.1 * (-c.0) == -(r.1 * c.0)) by(nonlinear_arith);
+}
 pub open spec fn two() -> (real, real) { (2real, 0real) }
 pub open spec fn four() -> (real, real) { (4real, 0real) }
 // r is (-b + s) / (2a) (plus) or (-b - s) / (2a) (minus) for the s with s * s == b^2 - 4ac
@@ -117,6 +124,26 @@ pub fn newton_polynomial(initial: C, poly: &Polynomial, tol: R, n_max: usize) ->
 '''
 
 
+
+def roots_ens(cs):
+    """the contract of roots(), over the coefficient view `cs` (cs: complex polynomial; csr: real polynomial read as complex pairs)"""
+    X = cs + "(*self)"
+    return [
+          # exactly degree-many numbers
+          "res is Ok && self.coefficients@.len() >= 2 ==> res->Ok_0@.len() == self.coefficients@.len() - 1",
+          # a leading coefficient within the tolerance is refused
+          "self.coefficients@.len() > 1 && rabs(self.lead().0) < tol@ && rabs(self.lead().1) < tol@ ==> res is Err",
+          # degree 1: Ok, and the returned number is an exact root:  c0 + r c1 == 0
+          f"self.coefficients@.len() == 2 && !(rabs(self.lead().0) < tol@ && rabs(self.lead().1) < tol@) ==> res is Ok && cadd({X}[0], cmul(res->Ok_0@[0]@, {X}[1])) == czero()",
+          # degree 2: Ok, and both returned numbers are (-b +- s) / (2a) with s * s == b^2 - 4ac, hence exact roots (lemma_quadratic_root)
+          f"self.coefficients@.len() == 3 && !(rabs(self.lead().0) < tol@ && rabs(self.lead().1) < tol@) ==> res is Ok "
+          f"&& quad_root({X}[2], {X}[1], {X}[0], res->Ok_0@[0]@, true) && quad_root({X}[2], {X}[1], {X}[0], res->Ok_0@[1]@, false)",
+          # degree >= 3: every returned number is an Ok result of Newton polishing on the ORIGINAL polynomial (not the deflated one)
+          f"self.coefficients@.len() >= 4 && res is Ok ==> forall|i: int| 0 <= i < res->Ok_0@.len() ==> newton_result({X}, #[trigger] res->Ok_0@[i]@, tol@)",
+          # the Laguerre iteration is capped
+          "n_max == 0 && self.coefficients@.len() >= 4 ==> res is Err"]
+
+
 def units(ctx):
     u = Unit("C14", "roots", preludes=("real", "stdx", "cx"), cfg=cfg())
     u.crate_attrs = []
@@ -135,30 +162,110 @@ def units(ctx):
     g.opt(subst=[("let mut corrected_roots = VecDeque::with_capacity(", "let mut corrected_roots: VecDeque<C> = VecDeque::with_capacity(", "R10-type-annotation")])
     g.req("self.wf()", "tol@ > 0real", "self.lead_kept()")
     g.decreases = "self.coefficients@.len()"
-    g.ens(# exactly degree-many numbers
-          "res is Ok && self.coefficients@.len() >= 2 ==> res->Ok_0@.len() == self.coefficients@.len() - 1",
-          # a leading coefficient within the tolerance is refused
-          "self.coefficients@.len() > 1 && rabs(self.lead().0) < tol@ && rabs(self.lead().1) < tol@ ==> res is Err",
-          # degree 1: Ok, and the returned number is an exact root:  c0 + r c1 == 0
-          "self.coefficients@.len() == 2 && !(rabs(self.lead().0) < tol@ && rabs(self.lead().1) < tol@) ==> res is Ok && cadd(cs(*self)[0], cmul(res->Ok_0@[0]@, cs(*self)[1])) == czero()",
-          # degree 2: Ok, and both returned numbers are (-b +- s) / (2a) with s * s == b^2 - 4ac, hence exact roots (lemma_quadratic_root)
-          "self.coefficients@.len() == 3 && !(rabs(self.lead().0) < tol@ && rabs(self.lead().1) < tol@) ==> res is Ok "
-          "&& quad_root(cs(*self)[2], cs(*self)[1], cs(*self)[0], res->Ok_0@[0]@, true) && quad_root(cs(*self)[2], cs(*self)[1], cs(*self)[0], res->Ok_0@[1]@, false)",
-          # degree >= 3: every returned number is an Ok result of Newton polishing on the ORIGINAL polynomial (not the deflated one)
-          "self.coefficients@.len() >= 4 && res is Ok ==> forall|i: int| 0 <= i < res->Ok_0@.len() ==> newton_result(cs(*self), #[trigger] res->Ok_0@[i]@, tol@)",
-          # the Laguerre iteration is capped
-          "n_max == 0 && self.coefficients@.len() >= 4 ==> res is Err")
+    g.ens(*roots_ens("cs"))
     g.loop(1, invariant=["k <= n_max", "complex.wf() && derivative.wf()", "tol@ > 0real", "self.coefficients@.len() >= 4", "cs(complex) == cs(*self) && complex.tolerance == self.tolerance",
                           "complex.coefficients@.len() == self.coefficients@.len() && complex.lead_kept()"],
            decreases="n_max - k")
-    g.hint("after: let division =", "proof { axiom_cdiv(cneg(self.coefficients@[0]@), self.coefficients@[1]@); assert(cs(*self)[0] == self.coefficients@[0]@ && cs(*self)[1] == self.coefficients@[1]@); }")
+    g.hint("after: let division =", "proof { axiom_cdiv(cneg(self.coefficients@[0]@), self.coefficients@[1]@); axiom_cdiv(self.coefficients@[0]@, cneg(self.coefficients@[1]@)); lemma_cmul_neg(division@, self.coefficients@[1]@); assert(cs(*self)[0] == self.coefficients@[0]@ && cs(*self)[1] == self.coefficients@[1]@); }")
     g.hint("after: let complex =", "proof { assert(complex.lead() == cs(complex)[cs(complex).len() - 1]); assert(self.lead() == cs(*self)[cs(*self).len() - 1]); assert(complex.lead_kept()); }")
     g.hint("before: let (deriv, second_deriv)", "proof { axiom_cabs(val@); }")
     g.hint("before: let a = if", "proof { axiom_cabs(denominator@); }")
     g.hint("after: let divisor =", "proof { assert(divisor.coefficients@.len() == 2 && divisor.lead() == (1real, 0real)); }")
     g.loop(2, iter="it", invariant=["complex.wf()", "self.coefficients@.len() >= 4", "roots@.len() == self.coefficients@.len() - 1", "cs(complex) == cs(*self)",
                                      "forall|i: int| 0 <= i < corrected_roots@.len() ==> newton_result(cs(*self), #[trigger] corrected_roots@[i]@, tol@)", "corrected_roots@.len() == it.index@", "forall|k: int| 0 <= k < it.history@.len() ==> *it.history@[k] == roots@[k]"])
-    return [u]
+    return [u, real_unit()]
+
+
+def cfg_real():
+    c = Config(type_subst=[("Polynomial<Complex<<N as ComplexField>::RealField>>", "CPolynomial"), ("Polynomial<Complex<N::RealField>>", "CPolynomial"),
+                           ("Complex<<N as ComplexField>::RealField>", "C"), ("Complex::<<N as ComplexField>::RealField>", "C"),
+                           ("Complex<N::RealField>", "C"), ("Complex::<N::RealField>", "C"),
+                           ("<N as ComplexField>::RealField", "R"), ("N::RealField", "R"),
+                           ("Polynomial<N>", "Polynomial"), ("Polynomial::<N>", "Polynomial"),
+                           ("N", "R"), ("f64", "R")])
+    c.extra = [("VecDeque::from(", "vx_deque_from_vec(", "R13-deque-from-vec")]
+    c.expand_polynomial_macro = True
+    c.polynomial_macro_type = "CPolynomial"        # the only polynomial![..] in roots() builds the complex linear factor
+    return c
+
+
+# the real instantiation N = f64: the polynomial's own coefficients are reals, everything after make_complex() is the complex
+# polynomial type, whose methods -- including roots() itself, proved in the unit above -- appear here as CONTRACTS ONLY
+REAL_SPEC = r'''
+pub struct CPolynomial { pub coefficients: Vec<C>, pub tolerance: R }
+pub open spec fn csr(p: Polynomial) -> Seq<(real, real)> { Seq::new(p.coefficients@.len(), |i: int| (p.coefficients@[i]@, 0real)) }
+// real coefficients read as complex pairs: the discriminant and the doubled leading coefficient of the quadratic formula
+pub proof fn lemma_real_quadratic(a: real, b: real, c: real)
+    ensures csub(cmul((b, 0real), (b, 0real)), cmul(cmul((4real, 0real), (a, 0real)), (c, 0real))) == (b * b - (4real * a) * c, 0real),
+        cmul((a, 0real), (2real, 0real)) == (2real * a, 0real)
+{
+    assert(cmul((b, 0real), (b, 0real)) == (b * b, 0real));
+    assert(cmul((4real, 0real), (a, 0real)) == (4real * a, 0real));
+    assert(cmul((4real * a, 0real), (c, 0real)) == ((4real * a) * c, 0real));
+}
+// degree 1 with real coefficients: d c1 == -c0 makes (d, 0) an exact root
+pub proof fn lemma_real_linear(c0: real, c1: real, d: real)
+    requires d * c1 == -c0
+    ensures cadd((c0, 0real), cmul((d, 0real), (c1, 0real))) == (0real, 0real)
+{ assert(cmul((d, 0real), (c1, 0real)) == (d * c1, 0real)); }
+impl Polynomial {
+    pub open spec fn wf(&self) -> bool { self.coefficients@.len() >= 1 }
+    pub open spec fn lead(&self) -> (real, real) { (self.coefficients@[self.coefficients@.len() - 1]@, 0real) }
+    pub open spec fn lead_kept(&self) -> bool { !(rabs(self.lead().0) <= self.tolerance@ && rabs(self.lead().1) <= self.tolerance@) }
+}
+'''
+
+
+def real_unit():
+    u = Unit("C14", "roots_real", preludes=("real", "stdx", "cx"), cfg=cfg_real())
+    u.crate_attrs = []
+    u.item(PFILE, "struct", "Polynomial")
+    u.spec("".join(l.verus_stub() for l in NRA_LEMMAS))
+    u.spec(REAL_SPEC)
+    u.spec(SPEC.replace("Polynomial", "CPolynomial"))
+    # the contract of roots() at the complex instantiation (proved in unit `roots`), restated
+    u.spec("impl CPolynomial {\n    #[verifier::external_body]\n    pub fn roots(&self, tol: R, n_max: usize) -> (res: Result<VecDeque<C>, String>)\n"
+           "        requires self.wf(), tol@ > 0real, self.lead_kept()\n        ensures\n"
+           + "".join("            " + e + ",\n" for e in roots_ens("cs")) + "    { unimplemented!() }\n}\n")
+    im = u.impl(PFILE, "Polynomial<N>", header="impl Polynomial", keep_assoc=False)
+    f = im.fn("make_complex")
+    f.opt(subst=[("Polynomial {", "CPolynomial {", "R10-struct-literal-type")])
+    f.req("self.wf()")
+    f.ens("cs(res) == csr(*self) && res.tolerance == self.tolerance && res.coefficients@.len() == self.coefficients@.len()")
+    f.loop(1, iter="it", invariant=["coefficients@.len() == it.index@", "forall|k: int| 0 <= k < it.index@ ==> coefficients@[k]@ == (self.coefficients@[k]@, 0real)",
+                                    "forall|k: int| 0 <= k < it.history@.len() ==> *it.history@[k] == self.coefficients@[k]"])
+    f.hint("before: Polynomial {", "proof { assert(Seq::new(coefficients@.len(), |i: int| coefficients@[i]@) =~= csr(*self)); }")
+    g = im.fn("roots")
+    g.attrs = []
+    g.opt(subst=[("let mut corrected_roots = VecDeque::with_capacity(", "let mut corrected_roots: VecDeque<C> = VecDeque::with_capacity(", "R10-type-annotation")])
+    g.req("self.wf()", "tol@ > 0real", "self.lead_kept()")
+    g.ens(*roots_ens("csr"))
+    g.loop(1, invariant=["k <= n_max", "complex.wf() && derivative.wf()", "tol@ > 0real", "self.coefficients@.len() >= 4", "cs(complex) == csr(*self) && complex.tolerance == self.tolerance",
+                          "complex.coefficients@.len() == self.coefficients@.len() && complex.lead_kept()"],
+           decreases="n_max - k")
+    g.hint("after: let division =", """proof {
+            let c0 = self.coefficients@[0]@; let c1 = self.coefficients@[1]@;
+            assert(csr(*self)[0] == (c0, 0real) && csr(*self)[1] == (c1, 0real));
+            assert(c1 != 0real);
+            assert(division@ * c1 == -c0) by(nonlinear_arith) requires division@ == (-c0) / c1 || division@ == c0 / (-c1), c1 != 0real;
+            lemma_real_linear(c0, c1, division@);
+        }""")
+    g.hint("before: let positive =", """proof {
+            let a = self.coefficients@[2]@; let b = self.coefficients@[1]@; let c = self.coefficients@[0]@;
+            assert(csr(*self)[0] == (c, 0real) && csr(*self)[1] == (b, 0real) && csr(*self)[2] == (a, 0real));
+            reveal_with_fuel(rpowi, 3);
+            assert(rpowi(b, 2) == b * b);
+            lemma_real_quadratic(a, b, c);
+            assert(a != 0real);
+        }""")
+    g.hint("after: let complex =", "proof { assert(complex.lead() == cs(complex)[cs(complex).len() - 1]); assert(self.lead() == csr(*self)[csr(*self).len() - 1]); assert(complex.lead_kept()); }")
+    g.hint("before: let (deriv, second_deriv)", "proof { axiom_cabs(val@); }")
+    g.hint("before: let a = if", "proof { axiom_cabs(denominator@); }")
+    g.hint("after: let divisor =", "proof { assert(divisor.coefficients@.len() == 2 && divisor.lead() == (1real, 0real)); }")
+    g.loop(2, iter="it", invariant=["complex.wf()", "self.coefficients@.len() >= 4", "roots@.len() == self.coefficients@.len() - 1", "cs(complex) == csr(*self)",
+                                     "forall|i: int| 0 <= i < corrected_roots@.len() ==> newton_result(csr(*self), #[trigger] corrected_roots@[i]@, tol@)", "corrected_roots@.len() == it.index@",
+                                     "forall|k: int| 0 <= k < it.history@.len() ==> *it.history@[k] == roots@[k]"])
+    return u
 
 
 DECIDED = [
@@ -168,12 +275,14 @@ DECIDED = [
     "degree >= 3: every division in the Laguerre step has a non-zero divisor (|p(x)| >= tol > 0; the denominator is used only when its modulus is > 0) -- this is the obligation the x^n - c defect failed; "
     "an exhausted iteration cap gives Err; every returned number is an Ok result of newton_polynomial on the ORIGINAL (undeflated) polynomial",
     "make_complex: same coefficients, same tolerance",
+    "Polynomial::roots at the REAL instantiation (N = f64, unit roots_real; the complex polynomial type appears there through contracts only, its roots() contract being the one "
+    "proved in unit roots): same clauses -- count, refusal of a negligible leading coefficient, degree 1 exact, degree 2: the two numbers are (-b +- s)/(2a) with s the COMPLEX square root "
+    "of the real discriminant read as (d, 0) (so a negative discriminant gives the conjugate pair, not NaN), degree >= 3 as above",
 ]
 NOT_DECIDED = [
     "that the returned numbers of degree >= 3 are roots to within a tolerance-scaled residual, match the true roots one-to-one, come in conjugate pairs, and that the result is Ok for separated roots "
     "(convergence of Laguerre / Newton iterations: analytic, no contract over exact reals expresses it); newton_result is the C08 contract (a Newton update of size <= tol), not a residual bound",
     "legendre_zeros / hermite_zeros / laguerre_zeros (n distinct real zeros inside the orthogonality interval): not under contract",
-    "the real instantiation N = f64 of roots() (differs from the verified text only by `.real()` / `.imaginary()` projections and from_f64 conversions)",
     "floating-point effects (tolerance near rounding noise)",
 ]
 ASSUMPTIONS = [
